@@ -325,6 +325,13 @@ func (p *Packer) packWalkFn(root, src, dst string, tarW *tar.Writer, meta *Meta,
 				return filepath.Walk(resolved.absTarget, p.packWalkFn(root, resolved.absTarget, linkPos, tarW, meta, ignoreRules, walking))
 			}
 
+			// Like special files found in the tree itself, a link to a fifo,
+			// socket or device is skipped: there is nothing to copy, and opening
+			// a fifo would block forever.
+			if !resolved.info.Mode().IsRegular() {
+				return nil
+			}
+
 			// Dereference this symlink by updating the header with the target file
 			// details and set writeBody to true so the body will be written.
 			header.Typeflag = tar.TypeReg
